@@ -150,6 +150,7 @@ pub fn generate(seed: u64, n: usize, _thorough: bool, _corpus: Option<&str>) -> 
         if i % 2 == 0 { if let Some(c) = eval_probe(&mut r) { out.push(c); } }
         if i % 2 == 1 { out.push(continuous_doors(&mut r)); }
         out.extend(history_cases(&mut r));
+        out.push(pipe_case(&mut r));
     }
     out
 }
@@ -711,4 +712,82 @@ fn history_cases(r: &mut Rng) -> Vec<Case> {
         }
     }
     cases
+}
+
+// ======================================================================================================
+// the staged PIPE RUNNER with arbitrary (also ill-typed) sequences of the eleven built-in pipes: which results were
+// accumulated, where the run stopped and with which `PipeError` (tag mismatch `InvalidData { expected, got }` or the
+// pipe's own failure wrapped in its variant).  The Lean model (`Rooc/Pipes.lean`) knows the typing table of the pipes
+// and `run_pipe`; the position of a failing stage FUNCTION is handed to it.
+
+use rooc::pipe::{PipeError, Pipeable, StandardLinearModelPipe, StepByStepSimplexPipe, TableauPipe};
+
+fn pipe_case(r: &mut Rng) -> Case {
+    let names = ["CompilerPipe", "PreModelPipe", "ModelPipe", "LinearModelPipe", "StandardLinearModelPipe", "TableauPipe",
+                 "RealSolver", "StepByStepSimplexPipe", "MILPSolverPipe", "AutoSolverPipe"];
+    let make = |n: &str| -> Box<dyn Pipeable> { match n {
+        "CompilerPipe" => Box::new(CompilerPipe::new()), "PreModelPipe" => Box::new(PreModelPipe::new()), "ModelPipe" => Box::new(ModelPipe::new()),
+        "LinearModelPipe" => Box::new(LinearModelPipe::new()), "StandardLinearModelPipe" => Box::new(StandardLinearModelPipe::new()),
+        "TableauPipe" => Box::new(TableauPipe::new()), "RealSolver" => Box::new(RealSolver::new()),
+        "StepByStepSimplexPipe" => Box::new(StepByStepSimplexPipe::new()),
+        "MILPSolverPipe" => Box::new(MILPSolverPipe::new()), _ => Box::new(AutoSolverPipe::new()) } };
+    // what follows what in a well-typed chain
+    let next_ok = |last: &str| -> Vec<&'static str> { match last {
+        "" => vec!["CompilerPipe"], "CompilerPipe" => vec!["PreModelPipe"], "PreModelPipe" => vec!["ModelPipe"], "ModelPipe" => vec!["LinearModelPipe"],
+        "LinearModelPipe" => vec!["StandardLinearModelPipe", "RealSolver", "MILPSolverPipe", "AutoSolverPipe"],
+        "StandardLinearModelPipe" => vec!["TableauPipe"], "TableauPipe" => vec!["StepByStepSimplexPipe"], _ => vec![] } };
+    let n = r.below(8);
+    let mut seq: Vec<&str> = vec![];
+    // one run in four: the whole step-by-step simplex preset
+    if r.chance(1, 4) { seq = vec!["CompilerPipe", "PreModelPipe", "ModelPipe", "LinearModelPipe", "StandardLinearModelPipe", "TableauPipe", "StepByStepSimplexPipe"]; }
+    for _ in 0..(if seq.is_empty() { n } else { r.below(2) }) {
+        let ok = next_ok(seq.last().copied().unwrap_or(""));
+        if !ok.is_empty() && r.chance(5, 6) { seq.push(*r.pick(&ok)); } else { seq.push(*r.pick(&names)); }
+    }
+    // sources: fine (continuous so that the simplex pipes apply / discrete), a syntax error, an undeclared variable, a product
+    let texts = [
+        "max x + y\ns.t.\n    c: x + 2 * y <= 4\n    d: x <= 3\ndefine\n    x as NonNegativeReal\n    y as NonNegativeReal",
+        "min x\ns.t.\n    c: x + y >= 1\ndefine\n    x as Boolean\n    y as IntegerRange(0, 2)",
+        "max x +\ns.t.\n    c: <= 4",
+        "max x\ns.t.\n    c: x + q <= 4\ndefine\n    x as Boolean",
+        "max x * y\ns.t.\n    c: x + y <= 4\ndefine\n    x as NonNegativeReal\n    y as NonNegativeReal",
+        "max x\ns.t.\n    c: x >= 1\ndefine\n    x as NonNegativeReal",
+        "min x\ns.t.\n    c: x >= 2\n    d: x <= 1\ndefine\n    x as NonNegativeReal",
+        "min x\ns.t.\n    c: x < 2\ndefine\n    x as NonNegativeReal",
+        "min x + y\ns.t.\n    c: x + y >= 1\ndefine\n    x as Boolean\n    y as NonNegativeReal",
+    ];
+    let ti = r.below(texts.len());
+    let fns = IndexMap::new();
+    let runner = PipeRunner::new(seq.iter().map(|n| make(n)).collect());
+    let res = std::panic::catch_unwind(std::panic::AssertUnwindSafe(|| runner.run(PipeableData::String(texts[ti].to_string()), &PipeContext::new(vec![], &fns))));
+    let ty = |d: &PipeableData| format!("{:?}", d.get_type());
+    let tys = |v: &Vec<PipeableData>| v.iter().map(|d| ty(d)).collect::<Vec<_>>().join(" ");
+    let mut c = Case::default();
+    c.show = format!("PipeRunner [{}] on text #{}", seq.join(", "), ti);
+    c.tags = vec!["pipe-runner".into()];
+    c.nontrivial = !seq.is_empty();
+    let mut fail = "none".to_string();
+    match res {
+        Err(_) => { c.impl_violation = Some(format!("PipeRunner panicked: {}", c.show)); c.imp = "(panic)".into(); }
+        Ok(Ok(rs)) => { c.imp = format!("(ok {})", tys(&rs)); c.tags.push("pipe-ok".into()); }
+        Ok(Err((e, rs))) => {
+            let ev = match &e {
+                PipeError::InvalidData { expected, got } => { c.tags.push("pipe-invalid-data".into()); format!("(invalid-data {:?} {:?})", expected, got) }
+                other => {
+                    fail = format!("(fail {})", rs.len() - 1);
+                    let v = match other {
+                        PipeError::EmptyPipeData => "EmptyPipeData", PipeError::CompilationError { .. } => "CompilationError", PipeError::TransformError { .. } => "TransformError",
+                        PipeError::LinearizationError(_) => "LinearizationError", PipeError::StandardizationError(_) => "StandardizationError",
+                        PipeError::CanonicalizationError(_) => "CanonicalizationError", PipeError::StepByStepSimplexError(..) => "StepByStepSimplexError",
+                        PipeError::SolverError(_) => "SolverError", PipeError::Other(_) => "Other", PipeError::InvalidData { .. } => unreachable!(),
+                    };
+                    c.tags.push(format!("pipe-{}", v));
+                    format!("(stage {})", v)
+                }
+            };
+            c.imp = format!("(err {} (results {}))", ev, tys(&rs));
+        }
+    }
+    c.req = format!("run-pipe (pipes{}{}) String {}", if seq.is_empty() { "" } else { " " }, seq.join(" "), fail);
+    c
 }
